@@ -81,7 +81,8 @@ def build_measurements(struct, kind, sigma, priv, seed):
         s_ = sigma * 40.0 if cl in seen else sigma     # a repeated clique: the later measurements are much noisier than the first
         seen.append(cl)
         y = Q @ x + s_ * rng.randn(n)
-        ms.append((Q.copy(), y.copy(), s_, tuple(cl)))
+        # one-attribute cliques are spelled as the bare attribute name for the prefix kind (a legal spelling of a projection)
+        ms.append((Q.copy(), y.copy(), s_, cl[0] if (len(cl) == 1 and kind == 'prefix') else tuple(cl)))
         dense.append((Q, y, s_, tuple(cl)))
     return ms, dense
 
@@ -176,14 +177,18 @@ def run_public(acc, pi, tier, seed, only=None):
                 pubw = np.array([float((i_ + pi) % 2) for i_ in range(len(pub))]) if (k_ % 3 == 0 and len(pub) >= 2) else None
                 data = Dataset(pd.DataFrame(frame0.copy(), columns=ATTRS), dom, pubw)
                 eng = PublicInference(data)
+                ms_call = [(Q.copy(), y.copy(), s, cl) for Q, y, s, cl in ms]
                 with M.quiet():
-                    est = eng.estimate([(Q.copy(), y.copy(), s, cl) for Q, y, s, cl in ms], total=total)
+                    est = eng.estimate(ms_call, total=total)
+                inputs_changed = any(not np.array_equal(a[1], b[1]) or not np.array_equal(np.asarray(a[0]), np.asarray(b[0])) for a, b in zip(ms_call, ms))
                 case = {'pi': pi, 'public': pub, 'priv': priv, 'struct': struct, 'kind': kind, 'sigma': sigma, 'total': tmode, 'ttype': ttype, 'second': None, 'seed': seed, 'tier': tier}
                 acc.case(case, nontrivial=len(pub) >= 2)
                 acc.states += 1
                 acc.transitions += 1
                 acc.traces += 1
                 fails = check_result(pub, frame0, est, dense, T, True, 'first call (total given as %s)' % ttype, sum_rtol)
+                if inputs_changed:
+                    fails.append(('inputs-mutated', 'estimate modified the caller\'s measurement arrays (a later call on the same arrays fits different answers)'))
                 acc.outcome('fresh:%s' % ('ok' if not fails else 'FAIL'))
                 for kd, msg in fails:
                     acc.violate(case, {'kind': kd, 'call': 1}, 'public %r, %s/%s/sigma=%g/total=%s: %s' % (pub, struct, kind, sigma, tmode, msg))
